@@ -914,6 +914,7 @@ def run(ctx: C.Ctx):
     n_oracle = n_corr_h = n_corr_d = 0
     nontrivial = set()
     untranspiled = []
+    unrun = []
     for ci, c in enumerate(cases):
         bi, li = where[ci]
         parsed, prob = fres[bi]
@@ -934,6 +935,8 @@ def run(ctx: C.Ctx):
                          {"id": c["id"], "geom": g, "ops": ops}, None, builders[bi].source()[0][-1500:])
             if prob.startswith("transpile failed") and c["kind"] != "wild" and all(c["guard"]):
                 untranspiled.append(c)
+            elif c["kind"] != "wild" and all(c["guard"]):
+                unrun.append(c)
             continue
         fwp = parsed[li]
         dev_ops = c.get("dev_ops", ops)
@@ -971,6 +974,29 @@ def run(ctx: C.Ctx):
                 seen.add(key)
                 ctx.fail("the transpiler rejects an in-range LCD call the host accepts", {"geom": g, "ops": [op]},
                          "firmware for the call", f"{t.get('exc')}: {t.get('msg')}", key=key)
+
+    # ---- a batch of guarded calls whose sketch did not compile or died (e.g. a division by zero in a
+    #      helper): find the call, each one alone on a fresh display
+    if unrun:
+        probe, seen_op = [], set()
+        for c in unrun[:60]:
+            for op in c["ops"]:
+                k = json.dumps([c["geom"][:3], op])
+                if k not in seen_op and len(probe) < 300:
+                    seen_op.add(k)
+                    probe.append((c["geom"], op))
+        bs = []
+        for g, op in probe:
+            b = ScriptBuilder("setup")
+            b.add_lcd("probe", g, [op], [False])
+            bs.append(b)
+        seen = set()
+        for (g, op), (_, prob) in zip(probe, run_firmware(bs)):
+            key = "firmware-dies-" + op[0]
+            if prob and not prob.startswith("transpile failed") and key not in seen:
+                seen.add(key)
+                ctx.fail("the firmware for an in-range LCD call does not compile or dies at run time", {"geom": g, "ops": [op]},
+                         "a firmware trace for the call", prob[:400], key=key)
 
     # ---- calls the transpiler must reject (bad align/style, glyph with != 8 rows)
     if reject_cases:
